@@ -39,6 +39,10 @@ CHECKS = {
    text="Differential simulation: one generated audio content / settings / command history is played by the static and by the streaming implementation side by side on the same simulated audio clock; the streaming decoder thread is a gated simulator task run until it sleeps or ends before every callback, with generated packet sizes and seek granularities. Outputs must be bit-identical, states identical at every callback, positions within one frame until the sound ends.",
    note="Decoder is a scripted stub; the real DecodeScheduler loop runs on its own (gated) thread. 'Keeps ahead' is enforced by construction (chunks <= 200 frames, rate <= 3).",
    technique="deterministic simulation with a gated decoder thread; differential (static vs streaming) oracle in lock-step"),
+ "C10": dict(level="fault_enumeration", design="3 C10, appendix A.4",
+   text="The real decode loop runs on its own thread, gated by the simulator (spawn / sleep redirected, yield point at the loop top). For a 12-packet stream the check enumerates (k-th decode fails, k = 0..13; k-th seek fails, k = 0..3 incl. the one inside into_sound; no fault) x (natural end, stop with / without fade, rejected by a full track, track dropped, manager dropped) x (decoder ahead, in time, starving, stalled), with seeded timing, transient and sticky faults; a second half draws everything from the seed, a third of it under seeded random schedules of decoder, audio and gameplay tasks. Oracles: after faults stop and under a fair schedule every decoder task has ended and released its Decoder within a bound; no busy spin (after an error, on a full ring); a decode error stops the sound within two callbacks, nothing is audible after Stopped, the first error is poppable; over index-coded audio the output with silence gaps removed is a contiguous run of the transport order (one frame of slack across a gap).",
+   note="Decoder is a scripted stub with injected failures; the 1 ms sleep is an event, never waited for. One open known finding (sound on a dropped track keeps its decoder thread until the next add_sub_track): while it is listed the drain phase makes that call. Four defects found here were repaired (leak on rejection / manager drop, spin after error, frame loss on underrun).",
+   technique="deterministic simulation with fault enumeration over decoder calls x ending x pace, gated decoder thread, bounded-liveness and history oracles; seeded thread schedules"),
  "C11": dict(level="exploration", design="3 C11",
    text="Twin-world simulation: a generated scene with constant parameters (all track kinds, sends, every built-in effect incl. nested delay feedback, static and streaming sounds at any rate / loop / pan) is rendered in three worlds that differ only in internal buffer size (1..4096) and callback partition (1-frame, non-multiples, zero-frame, one huge callback). Streams are compared frame by frame: bit-for-bit without recursive effects / spatialization, |d| <= 1e-6 with them.",
    note="Constant parameters only (no modulators, tweens, delayed or clock starts), as the property states; streaming decoders are kept ahead by the gate scheduler.",
